@@ -23,7 +23,20 @@ def check(pc, goal, timeout_ms=None, want_model=True, observe=()):
   g = z3.simplify(goal)
   if z3.is_true(g):
     return 'unsat', None, 'trivial', 0.0
+  pc = flatten(pc)
   pc, g = skolem_instances(pc, g)
+  if any(z3.is_quantifier(c) for c in pc):
+    # first from the quantifier-free hypotheses alone (including the instances just added): proving the goal from fewer
+    # hypotheses is sound, and the quantified heap axioms are what makes the full query slow
+    q = z3.Solver()
+    q.set('timeout', 2000)
+    q.set('random_seed', 7)
+    for c in pc:
+      if not z3.is_quantifier(c):
+        q.add(c)
+    q.add(z3.Not(g))
+    if q.check() == z3.unsat:
+      return 'unsat', None, 'z3-qf', time.time() - t0
   s = z3.Solver()
   s.set('timeout', min(EMATCH_TIMEOUT_MS, timeout_ms or Z3_TIMEOUT_MS))
   s.set('random_seed', 7)
@@ -62,29 +75,64 @@ def check(pc, goal, timeout_ms=None, want_model=True, observe=()):
     # MBQI only answers sat when its model satisfies the quantifiers; no model is extracted from the CLI run
     return st, ({} if st == 'sat' else None), 'z3-cli-mbqi', time.time() - t0
   st = cvc5_check(s)
+  if st == 'unknown' and want_model:
+    # undecided: a model of the quantifier-free hypotheses + the negated goal is only a CANDIDATE (it may violate a
+    # quantified hypothesis); it is handed to the unit's replayer, and counts only if the real code reproduces it
+    q = z3.Solver()
+    q.set('timeout', 3000)
+    for c in pc:
+      if not z3.is_quantifier(c):
+        q.add(c)
+    q.add(z3.Not(g))
+    if q.check() == z3.sat:
+      cand = model_dict(q.model())
+      for label, term in observe:
+        try:
+          cand[label] = str(q.model().eval(term, model_completion=True))
+        except Exception:
+          pass
+      cand['$candidate'] = 'model of the quantifier-free hypotheses only'
+      return 'unknown', cand, 'z3+cvc5', time.time() - t0
   return st, None, 'cvc5' if st != 'unknown' else 'z3+cvc5', time.time() - t0
 
 
 _SK = [0]
 
 
+def flatten(pc):
+  """Top-level conjunctions split into their conjuncts (so that quantified conjuncts can be told from ground ones)."""
+  out = []
+  todo = list(reversed(list(pc)))
+  while todo:
+    c = todo.pop()
+    if z3.is_and(c):
+      todo.extend(reversed(c.children()))
+    else:
+      out.append(c)
+  return out
+
+
 def skolem_instances(pc, g):
   """A universally quantified integer goal  forall j. B(j)  is proved for a fresh constant sk; every hypothesis of the
   form  forall j. H(j)  over one integer (the shape forall_int produces) is additionally instantiated at sk.  Both steps
   are sound (instances of hypotheses; generalisation over a fresh constant) and spare the solver the E-matching."""
-  if not (z3.is_quantifier(g) and g.is_forall() and g.num_vars() == 1 and g.var_sort(0) == z3.IntSort()):
+  if not (z3.is_quantifier(g) and g.is_forall() and g.num_vars() == 1):
     return pc, g
+  srt = g.var_sort(0)
   _SK[0] += 1
-  sk = z3.Int('sk!%d' % _SK[0])
+  sk = z3.Const('sk!%d' % _SK[0], srt)
   body = z3.substitute_vars(g.body(), sk)
   extra = []
-  for c in pc:
-    h = c
-    if z3.is_and(h) and h.num_args() == 1:
-      h = h.arg(0)
-    if z3.is_quantifier(h) and h.is_forall() and h.num_vars() == 1 and h.var_sort(0) == z3.IntSort() and \
-        h.var_name(0).startswith('q_'):
+
+  def visit(h, depth):
+    if z3.is_and(h) and depth < 3:
+      for ch in h.children():
+        visit(ch, depth + 1)
+    elif z3.is_quantifier(h) and h.is_forall() and h.num_vars() == 1 and h.var_sort(0) == srt and \
+        h.var_name(0).startswith(('q_', 'wf_')):
       extra.append(z3.substitute_vars(h.body(), sk))
+  for c in pc:
+    visit(c, 0)
   return list(pc) + extra, body
 
 
